@@ -37,7 +37,7 @@ def _shapes(run, g, np, n):
         run.violation("shapes:n%d:raises" % n, "get_allowed_shapes(%d) raised %r" % (n, ex), {"n": n})
         got = []
     obs.append(dict(id=len(obs), kind="shapes", n=n, shapes=got))
-    jres, failed = tlc.judge("TreesJudge", obs)
+    jres, failed = tlc.judge("TreesJudge", obs, timeout=9000, heap="8g")
     run.add_tlc(jres, "judge_shape_n%d" % n)
     for i, clauses in sorted(failed.items()):
         o = obs[i]
